@@ -251,6 +251,8 @@ FT map_coordinate(FT in, const npy_intp len, const int mode) {
                     const npy_intp sz2 = 2 * len;
                     if (in < -sz2) in = sz2 * (npy_intp)(-in / sz2) + in;
                     in = in < -len ? in + sz2 : -in - 1;
+                    // a multiple of the period reduces to 0 and then to -1, which mirrors position 0
+                    if (in <= -1) in = 0;
                 }
                 break;
             case ExtendWrap:
